@@ -6,6 +6,7 @@ package sim
 import (
 	"bytes"
 	"fmt"
+	"k8s.io/apimachinery/pkg/types"
 	"math/rand"
 	"os"
 	"sort"
@@ -534,6 +535,21 @@ func (w *World) NewOldDaemonSet(ns, name string, podLabels map[string]string, no
 		w.S.Inject(p)
 	}
 	w.tracef("env: old DaemonSet %s/%s with pods on %v", ns, name, nodes)
+}
+
+// NewLookalikePod: a pod whose labels match the old DaemonSet's selector and whose controller has
+// the old DaemonSet's name but another kind (a StatefulSet called like the DaemonSet): not a pod
+// "owned by the named old DaemonSet".
+func (w *World) NewLookalikePod(ns, name string, podLabels map[string]string, node string) {
+	tr := true
+	p := &corev1.Pod{ObjectMeta: metav1.ObjectMeta{Namespace: ns, Name: name + "-sts-0", Labels: copyMap(podLabels),
+		OwnerReferences: []metav1.OwnerReference{{APIVersion: "apps/v1", Kind: "StatefulSet", Name: name, UID: "uid-sts-" + types.UID(name), Controller: &tr}}},
+		Spec: corev1.PodSpec{NodeName: node, Containers: []corev1.Container{{Name: "main", Image: "img:sts"}}}}
+	p.Labels[kit.MarkerLabel] = "statefulset"
+	p.Status.Phase = corev1.PodRunning
+	p.Status.Conditions = []corev1.PodCondition{kit.ReadyCond(true, w.Now())}
+	w.S.Inject(p)
+	w.tracef("env: pod %s/%s (StatefulSet %s, labels of the old DaemonSet) on %s", ns, p.Name, name, node)
 }
 
 func copyMap(m map[string]string) map[string]string {
